@@ -131,3 +131,24 @@ def generic_thread_death(r, pid, allow=()):
         role = (d["role"] or "?").split(":")[0]
         out.append(v("thread-died", "%s/thread-died/%s/%s" % (pid, role, d["exc"]), "thread %s died: %s: %s" % (d["role"], d["exc"], d["msg"])))
     return out
+
+
+_PYN_FILES = ("association.py", "dul.py", "acse.py", "dimse.py", "transport.py", "fsm.py", "service_class.py", "ae.py", "events.py")
+
+
+def hang_where(r):
+    """Where pynetdicom's threads (and user threads inside pynetdicom calls) were when a run was capped or stuck:
+    'assoc:kill+dul:run_reactor' - role kind and innermost pynetdicom function, sorted; used in signatures so that one
+    known hang does not hide a different one."""
+    parts = set()
+    for t in r.failure_info or []:
+        if not isinstance(t, dict):
+            continue
+        fn = None
+        for fr in t.get("stack") or []:
+            f = fr.split(":")
+            if len(f) >= 3 and f[0] in _PYN_FILES:
+                fn = f[2]
+        if fn is not None:
+            parts.add("%s:%s" % ((t.get("role") or "?").split(":")[0], fn))
+    return "+".join(sorted(parts)) or "none"
